@@ -953,3 +953,107 @@ def convex_polygon(eng, callee, a, m, fc):
     if name == 'points':
         return Ref(lambda: cp[0])
     raise Unsupported('ConvexPolygon::' + name)
+
+
+# ------------------------------------------------------------------------------------------------ parry point queries by contract
+def _closest_on_segment(eng, a, b, q):
+    """(point, bary0, bary1, vertex id or None): clamped orthogonal projection of q on the segment a-b (parry: OnVertex / OnEdge)"""
+    e = vsub(b, a)
+    ee = vdot(e, e)
+    s = vdot(vsub(q, a), e)                      # s / ee is the edge parameter
+    if eng.branch(f_cmp('Le', s, zero())):
+        return list(a), one(), zero(), 0
+    if eng.branch(f_cmp('Ge', s, ee)):
+        return list(b), zero(), one(), 1
+    t = f_div(s, ee)
+    return vadd(a, vscale(e, t)), f_sub(one(), t), t, None
+
+
+@ext(r'^<(?:[\w:]*::)?Polyline as (?:[\w:]*::)?PointQueryWithLocation>::project_local_point_and_get_location$')
+def polyline_project(eng, callee, a, m, fc):
+    """contract: the projection is a point of the polyline at minimal distance from the query, reported with the edge it lies on and
+    its location on that edge (ties between edges: either, forked)"""
+    pl = unref(a[0])
+    q = vec_of(a[1])
+    verts = [vec_of(p) for p in pl[0].items]
+    best = None
+    for i in range(len(verts) - 1):
+        p, b0, b1, vid = _closest_on_segment(eng, verts[i], verts[i + 1], q)
+        d = vdot(vsub(q, p), vsub(q, p))
+        if best is None or eng.branch(f_cmp('Lt', d, best[0])):
+            best = (d, p, b0, b1, vid, i)
+    d, p, b0, b1, vid, i = best
+    loc = En('OnVertex', [vid], 'SegmentPointLocation') if vid is not None else En('OnEdge', [[b0, b1]], 'SegmentPointLocation')
+    prj = Struct('PointProjection', [False, pt(p)])
+    return [prj, [i, loc]]
+
+
+@ext(r'(?:^|::)SegmentPointLocation::(\w+)$')
+def segment_point_location(eng, callee, a, m, fc):
+    name = m.group(1)
+    loc = unref(a[0])
+    if name == 'barycentric_coordinates':
+        if loc.v == 'OnVertex':
+            return [one(), zero()] if int(loc.f[0]) == 0 else [zero(), one()]
+        return list(loc.f[0])
+    raise Unsupported('SegmentPointLocation::' + name)
+
+
+def _closest_on_triangle(eng, a, b, c, p):
+    """Ericson, Real-Time Collision Detection 5.1.5, with the region decisions forked symbolically"""
+    ab, ac, ap = vsub(b, a), vsub(c, a), vsub(p, a)
+    d1, d2 = vdot(ab, ap), vdot(ac, ap)
+    le0 = lambda x: eng.branch(f_cmp('Le', x, zero()))
+    ge0 = lambda x: eng.branch(f_cmp('Ge', x, zero()))
+    if le0(d1) and le0(d2):
+        return list(a)
+    bp = vsub(p, b)
+    d3, d4 = vdot(ab, bp), vdot(ac, bp)
+    if ge0(d3) and eng.branch(f_cmp('Le', d4, d3)):
+        return list(b)
+    vc = f_sub(f_mul(d1, d4), f_mul(d3, d2))
+    if le0(vc) and ge0(d1) and le0(d3):
+        return vadd(a, vscale(ab, f_div(d1, f_sub(d1, d3))))
+    cp = vsub(p, c)
+    d5, d6 = vdot(ab, cp), vdot(ac, cp)
+    if ge0(d6) and eng.branch(f_cmp('Le', d5, d6)):
+        return list(c)
+    vb = f_sub(f_mul(d5, d2), f_mul(d1, d6))
+    if le0(vb) and ge0(d2) and le0(d6):
+        return vadd(a, vscale(ac, f_div(d2, f_sub(d2, d6))))
+    va = f_sub(f_mul(d3, d6), f_mul(d5, d4))
+    if le0(va) and ge0(f_sub(d4, d3)) and ge0(f_sub(d5, d6)):
+        return vadd(b, vscale(vsub(c, b), f_div(f_sub(d4, d3), f_add(f_sub(d4, d3), f_sub(d5, d6)))))
+    den = f_add(f_add(va, vb), vc)
+    return vadd(vadd(a, vscale(ab, f_div(vb, den))), vscale(ac, f_div(vc, den)))
+
+
+def _trimesh_closest(eng, tm, q):
+    vs = [vec_of(p) for p in tm[0].items]
+    best = None
+    for k, f in enumerate(tm[1].items):
+        idx = [int(as_fraction(x)) for x in f]
+        p = _closest_on_triangle(eng, vs[idx[0]], vs[idx[1]], vs[idx[2]], q)
+        d = vdot(vsub(q, p), vsub(q, p))
+        if best is None or eng.branch(f_cmp('Lt', d, best[0])):
+            best = (d, p, k)
+    return best
+
+
+@ext(r'^<(?:[\w:]*::)?TriMesh as (?:[\w:]*::)?PointQueryWithLocation>::(project_local_point_and_get_location(?:_with_max_dist)?)$|^<(?:[\w:]*::)?TriMesh as (?:[\w:]*::)?PointQuery>::(project_local_point)$')
+def trimesh_project(eng, callee, a, m, fc):
+    """contract: the nearest point over all triangles with the id of its triangle; with a cap: Some exactly when its distance is below the cap"""
+    name = m.group(1) or m.group(2)
+    tm = unref(a[0])
+    q = vec_of(a[1])
+    d, p, k = _trimesh_closest(eng, tm, q)
+    prj = Struct('PointProjection', [False, pt(p)])
+    if name == 'project_local_point':
+        return prj
+    res = [prj, [k, Opaque('triangle point location')]]
+    if name.endswith('_with_max_dist'):
+        cap = a[3]
+        if eng.branch(f_cmp('Lt', d, f_mul(cap, cap))):
+            return En('Some', [res])
+        return En('None')
+    return res
